@@ -1707,6 +1707,45 @@ def rule_d20(toks, log):
 
 
 # ---------------------------------------------------------------------------------------
+# D1d: a ChunksExactMut bound to a local, iterated by `&mut X`, then `X.into_remainder()`
+
+def rule_d1d(toks, log):
+    """`let mut X = W . chunks_exact_mut ( N ) ; .. for P in & mut X { B } .. let R = X . into_remainder ( ) ;`
+    (W, X, R identifiers, N an integer literal >= 1, X used nowhere else)
+    ==> the binding of X is dropped, the loop iterates `W . chunks_exact_mut ( N )` (lowered by D1/D1c to an index loop
+    with `P = &mut W[N*k .. N*k + N]`), and `let __rem_start_X = N * ( W . len ( ) / N ) ; let R = & mut W [ __rem_start_X .. ] ;`.
+    Meaning of ChunksExactMut in `core` (trusted as for D1): the iterator yields the W.len() / N full chunks in order;
+    `into_remainder()` is the tail of fewer than N elements, fixed when the iterator is created."""
+    i = 0
+    while i + 10 < len(toks):
+        if _is(toks[i], 'let') and not toks[i][2] and _is(toks[i + 1], 'mut') and toks[i + 2][0] == 'id' \
+                and _is(toks[i + 3], '=') and toks[i + 4][0] == 'id' and _is(toks[i + 5], '.') \
+                and _is(toks[i + 6], 'chunks_exact_mut') and _is(toks[i + 7], '(') and toks[i + 8][0] == 'lit' \
+                and toks[i + 8][1].isdigit() and int(toks[i + 8][1]) >= 1 and _is(toks[i + 9], ')') and _is(toks[i + 10], ';') \
+                and not any(x[2] for x in toks[i:i + 11]):
+            x, w, nlit = toks[i + 2][1], toks[i + 4][1], toks[i + 8][1]
+            uses = [j for j in range(i + 11, len(toks)) if toks[j][0] == 'id' and toks[j][1] == x and not toks[j][2]]
+            loop_use = [j for j in uses if j >= 3 and _is(toks[j - 1], 'mut') and _is(toks[j - 2], '&') and _is(toks[j - 3], 'in')]
+            rem_use = [j for j in uses if j + 4 < len(toks) and _is(toks[j + 1], '.') and _is(toks[j + 2], 'into_remainder')
+                       and _is(toks[j + 3], '(') and _is(toks[j + 4], ')') and j + 5 < len(toks) and _is(toks[j + 5], ';')
+                       and j >= 3 and _is(toks[j - 1], '=') and toks[j - 2][0] == 'id' and _is(toks[j - 3], 'let')]
+            if len(uses) != 2 or len(loop_use) != 1 or len(rem_use) != 1 or not loop_use[0] < rem_use[0]:
+                raise Unsupported('D1d: ChunksExactMut local `%s` is not used as `for P in &mut %s` + `let R = %s.into_remainder();`' % (x, x, x))
+            lu, ru = loop_use[0], rem_use[0]
+            chunk_src = toks_of('%s . chunks_exact_mut ( %s )' % (w, nlit), False)
+            rem_src = toks_of('& mut %s [ __rem_start_%s .. ]' % (w, x), False)
+            rem_pre = toks_of('let __rem_start_%s = %s * ( %s . len ( ) / %s ) ;' % (x, nlit, w, nlit), False)
+            log.append('D1d `let mut %s = %s.chunks_exact_mut(%s)` / `for .. in &mut %s` / `%s.into_remainder()` -> loop over the '
+                       'chunks of %s, remainder `&mut %s[%s * (%s.len() / %s)..]`' % (x, w, nlit, x, x, w, w, nlit, w, nlit))
+            # (the start index is computed before the mutable borrow: `let R = ..` begins at ru - 3)
+            toks = toks[:i] + toks[i + 11:lu - 2] + chunk_src + toks[lu + 1:ru - 3] + rem_pre + toks[ru - 3:ru] + rem_src \
+                + toks[ru + 5:]
+            continue
+        i += 1
+    return toks
+
+
+# ---------------------------------------------------------------------------------------
 # D21: indexed store whose right-hand side is a call, with a proof step between the call and the store
 # (directive `#[after_rhs]` in the annotation that follows the statement)
 
@@ -1807,6 +1846,7 @@ def lower(toks, marks, opts=None):
     ts = rule_d17(ts, log)
     ts = rule_d18(ts, log)
     ts = rule_d7(ts, log)
+    ts = rule_d1d(ts, log)
     ts = rule_d1(ts, log)
     ts = rule_d9(ts, log)
     ts = rule_d8(ts, log)
